@@ -56,6 +56,7 @@ Proof.
   - (* Snapshot *) rewrite (snapshot_ok s H0). auto.
   - (* SelfOp: not an operation with an explicit operand *) auto.
   - (* Cmp *) rewrite (cmp_ok s k o H V). auto.
+  - (* SelfMix: not an operation with explicit operands *) auto.
 Qed.
 
 Lemma s_symdiff_self l : s_symdiff l (Opd true l) = [].
@@ -74,6 +75,9 @@ Proof.
               refines_step c s o').
   { intros o' V' E1 E2. unfold refines_step. rewrite E1, E2. apply step_refines1; assumption. }
   destruct o; try (apply G; [exact V|reflexivity|reflexivity]).
+  2: { (* several operands, some of them the set itself *)
+       unfold refines_step. cbn [m_step spec_step].
+       apply (step_refines1 c s _ H). destruct k; reflexivity. }
   (* the operand is the set itself *)
   assert (X : forall k', k' <> SSymDiffUpdate -> m_step c s (SelfOp k') = m_step1 c s (expand_self k' (as_operand s))).
   { intros k' N. destruct k'; try reflexivity. contradiction. }
